@@ -342,6 +342,14 @@ func (p *Proxy) setDest(ctx context.Context, newDestURL *url.URL, onSubmit func(
 
 	p.pipe.SetDest(newDest)
 
+	if ctx.Err() != nil {
+		// the session ended while the destination was being changed: Run has returned and closed the
+		// connections it knew of, the new one would stay open until it idles out
+		newDest.conn.Close()
+		p.destMap.Delete(newDest.ID())
+		return ctx.Err()
+	}
+
 	p.pipe.StartSourceToDest(ctx)
 	p.pipe.StartDestToSource(ctx)
 
